@@ -8,6 +8,7 @@ def segStr : Seg → String
   | .s n => n
   | .csv n => s!"data{n}.csv"
   | .dinfo n => s!"data{n}.datainfo"
+  | .model e => s!"model.{e}"
 
 def pathStr (p : Path) : String := "/".intercalate (p.map segStr)
 
